@@ -18,6 +18,12 @@ Definition script_reader : rfn (list (bytes * rstat)) :=
 
 Definition app_w : wfn bytes := fun s p => (s ++ p, length p, false).
 
+(* a connection that accepts k bytes in total and then fails (partial write + error) *)
+Definition cut_w (k : nat) : wfn bytes := fun s p =>
+  let room := k - length s in
+  if Nat.leb (length p) room then (s ++ p, length p, false)
+  else (s ++ firstn room p, room, true).
+
 (* one exchange as observed at the origin + what the caller was given *)
 Inductive exch :=
 | X1 (header_block : bytes)            (* request line + header lines + blank line, as captured *)
@@ -35,7 +41,13 @@ Inductive exch :=
      (aborted : bool)                  (* the client never ended the stream (upload abandoned) *)
      (resp_fields : list field) (reads : list (bytes * rstat))
 | X3 (fields : list field) (body : option (list bytes))
-     (resp_fields : list field) (reads : list (bytes * rstat)).
+     (resp_fields : list field) (reads : list (bytes * rstat))
+(* uploads that break off: the connection / stream accepted only [accepted] bytes of the body
+   (h1: Content-Length body, the peer closed the connection, no response; h3: the peer answered
+   and stopped reading) *)
+| X1a (header_block body : bytes) (accepted : nat)
+| X3a (fields : list field) (body : bytes) (accepted : nat)
+      (resp_fields : list field) (reads : list (bytes * rstat)).
 
 (* read k header blocks one after the other (interim 1xx responses, then the final one) *)
 Fixpoint recv_blocks (ds : list dumper) (n : nat) (k : nat) (stream : bytes) : bytes * log :=
@@ -72,6 +84,13 @@ Definition exch_log (ds : list dumper) (x : exch) : bool * log :=
                 | _ => snd (h23_recv ds rfs script_reader reads (map (fun _ => 0) reads))
                 end in
       (Bool.eqb (sr_failed sr) (aborted && negb fin), l1 ++ l2)
+  | X1a hb body n =>
+      let '(sr, l1) := h1_send ds (cut_w (length hb + n)) [] (mkH1Req [hb] (Some [body]) false false) in
+      (Bool.eqb (sr_failed sr) (Nat.ltb n (length body)), l1)
+  | X3a fs body n rfs reads =>
+      let '(sr, l1) := h3_send ds no_enc (cut_w n) [] (mkH23Req fs (Some [body]) false false) in
+      let '(_, l2) := h23_recv ds rfs script_reader reads (map (fun _ => 0) reads) in
+      (Bool.eqb (sr_failed sr) (Nat.ltb n (length body)), l1 ++ l2)
   | X3 fs body rfs reads =>
       let '(sr, l1) := h3_send ds no_enc app_w [] (mkH23Req fs body false false) in
       let '(_, l2) := h23_recv ds rfs script_reader reads (map (fun _ => 0) reads) in
